@@ -9,7 +9,9 @@ META = {
             "literal, quoted string and key the printer can emit is lexed back as exactly one token covering the whole "
             "literal, and decoding the printed document yields the JSON text of the original value, for every nesting "
             "of arrays and objects (induction on the value); the bytes Marshal returns are owned by the caller (origin of "
-            "every []byte result extracted from the source, heap model with caller writes). Tied to the code by a translator of constants and by "
+            "every []byte result extracted from the source, heap model with caller writes); after any history of "
+            "WriteFile calls ReadFile returns the last value written (the file as state; how WriteFile opens the file "
+            "is extracted from the source). Tied to the code by a translator of constants and by "
             "differential runs of Marshal and Unmarshal (printer output, decoder output, strconv.Quote) evaluated in Coq.",
     "note": "Trusted: Coq kernel + vm_compute; translator gen/jsonx.go; harness + shim; strconv.Quote / Unquote and "
             "encoding/json are modelled and compared on every run, not verified; unicode.IsPrint and float "
@@ -29,7 +31,7 @@ def impl_oracle(c):
         return kind, "%s: %s" % (c["op"], o["crash"][:160])
     if c["op"] == "file":
         return J.file_oracle(c)
-    if c["op"] == "reuse":
+    if c["op"] in ("reuse", "fhist"):
         return J.usage_oracle(c)
     if c["op"] == "gort":
         r = o.get("res")
@@ -83,7 +85,7 @@ def run(ck):
                 ck.coverage["go_values_json_equal_only"] = ck.coverage.get("go_values_json_equal_only", 0) + 1
         if c["op"] == "runes":
             ck.coverage["code_points_swept"] = ck.coverage.get("code_points_swept", 0) + (c["obs"].get("n") or 0)
-        ck.count(c["stream"] + ":" + c["op"], key=(c["op"], c["in"]), trivial=trivial)
+        ck.count(c["stream"] + ":" + c["op"], key=(c["op"], c["in"], c.get("pre")), trivial=trivial)
         bad = impl_oracle(c)
         if bad:
             ck.violation("impl:%s:%s" % (bad[0], c["stream"]), bad[1],
@@ -129,6 +131,10 @@ def run(ck):
              "than 4096 bytes, wide and deep containers; two to five values through Marshal one after the other "
              "(the bytes of the first result intact after the next call, the same text twice) and from 8 goroutines "
              "(Marshal, Sprint); Fprint into writers that fail at Write call k (for good, or once) must return an "
-             "error; WriteFile into a missing directory. Trivial = the value "
+             "error; WriteFile into a missing directory. File histories on ONE path: two to eight WriteFile calls over "
+             "the same file (texts shrinking, growing, of equal length, scalars over objects, empty containers), each "
+             "followed by a byte comparison of the file with Marshal's output and by ReadFile; over a fresh path, a "
+             "file of mode 0600 / 0444, a longer file WriteFile did not write, a symbolic link to a file, a dangling "
+             "link; a directory and a missing directory must be errors. Trivial = the value "
              "nil; distinct = distinct (operation, json.Marshal of the value).",
         assumptions=["values are those json.Marshal can encode", "unicode.IsPrint(0x0A) = false"])
